@@ -52,7 +52,7 @@ CLAIMS = {
               "height preferred; this also proves the unreachable!() arms dead); the kill set of unique_id (every non-witness TxIn "
               "field extract_tx fills from a signer/updater-mutable PSET field is reset before txid()); the per-field identity of "
               "from_txin/from_txout composed with extract_tx and the agreement of to_txout with extract_tx, including which source wins "
-              "(commitment over explicit field) on all 16 presence patterns in both views; the truth table of TxOut::is_partially_blinded that "
+              "(commitment over explicit field) on all 16 presence patterns in both views and in the issuance view of an input; small PSET accessors and the 64-row tables of is_partially/fully_blinded; the truth table of TxOut::is_partially_blinded that "
               "decides where from_txout stores the nonce; the 0xffffffff "
               "exemption at every reader of the index flag bits. Whole-value tx->PSET->tx equality is decided per field flow only."),
         technique="abstract interpretation over enum discriminants (exhaustive decision table) + field-flow composition of sibling converters",
@@ -64,7 +64,7 @@ CLAIMS = {
               "*_signing_data_to functions is compared row by row with spec tables (36 taproot rows incl. the Elements extensions, 18 "
               "BIP143+issuance rows with mutually exclusive zero-hash alternatives, the legacy construction: SINGLE-bug constant, "
               "ANYONECANPAY input selection, script_sig placement, sequence zeroing, outputs by type, trailing LE hash type); plus the "
-              "contents of the common/segwit/taproot hash caches, the outpoint flag byte, the Annex encoder (compact size + all bytes) and the TapLeaf preimage. Digest equality "
+              "contents of the common/segwit/taproot hash caches, that the blanked outputs of legacy SINGLE are the null output (TxOut::default resolved field by field), the outpoint flag byte, the Annex encoder (compact size + all bytes) and the TapLeaf preimage. Digest equality "
               "with an independent implementation is not decided."),
         technique="ordered guarded event-sequence extraction from MIR compared with specification tables",
         design_ref="§4 C03, Appendix B"),
@@ -86,8 +86,8 @@ CLAIMS = {
               "instance-level call graph: each of the ~540 panic-capable MIR sites (bounds/overflow/division asserts, unwrap/expect, "
               "panic!/unreachable!, indexing, copy_from_slice, split_at, Vec::remove, chunks) is either discharged by a recognised guard "
               "idiom evaluated on the code (constant-safe, in-memory sink, length-interval guard incl. relational `len >= end`, Some guard, "
-              "byte-length arithmetic, guarded subtraction) or listed in tables/panic_sites.tsv with a reason confirmed by reading and, for "
-              "parser sites, the dominating guards the reason depends on (for the script-template predicates guarding Address::from_script, "
+              "byte-length arithmetic, guarded subtraction) or listed in tables/panic_sites.tsv with a reason confirmed by reading and the "
+              "dominating conditions of its sites, which must still dominate it (for the script-template predicates guarding Address::from_script, "
               "their exact truth tables); plus the bounded-allocation rule for sizes derived from decoded "
               "integers. A new unguarded site, or the removal of a guard a discharge/table entry relies on, is a violation. "
               "The reasons in the table are reviewed judgements, not machine proofs."),
@@ -101,7 +101,9 @@ CLAIMS = {
               "flag-bit extraction only under vout != 0xffffffff; empty vector <=> absent proof); writer/reader agreement of the ordered "
               "(field, wire type) lists for every type with both impls (8 structs, ~20 newtypes, the three confidential unions, Params, "
               "TxIn, Transaction, BlockHeader/ExtData) incl. flag folding and byte order; length accounting of every encoder (each nested "
-              "encode is summed or a fixed-width literal is added); the three varint tables; bounded allocation on decoder paths. Byte "
+              "encode is summed or a fixed-width literal is added); the three varint tables; bounded allocation on decoder paths; the primitive layer (fixed-width integers as little-endian "
+              "bytes of their own width, slices whole, compact size then bytes, fixed arrays), the identity byte views of the hash and root "
+              "newtypes, and the lock-time threshold tables. Byte "
               "identity of secp256k1 parse/serialize is trusted; equality of values is argued per field, not executed."),
         technique="sibling codec agreement on MIR event sequences + exhaustive decision tables over tag bytes + dominance of canonicity guards + return-value dataflow",
         design_ref="§4 C01"),
@@ -112,7 +114,8 @@ CLAIMS = {
               "proprietary subtype) for all 70 keys, equal Serialize/Deserialize key and value types, no shared key, every struct field "
               "emitted and parsed; every unkeyed arm is guarded by empty key data and an unset field with InvalidKey/DuplicateKey edges, "
               "keyed arms reject occupied entries, hash preimages are checked before insertion; framing (magic, separator, order, 0x00 "
-              "terminators, NoMorePairs, sanity_check dominating Ok, 10 000 caps); mandatory-field errors; who-may-write rule for the "
+              "terminators, NoMorePairs, sanity_check dominating Ok, 10 000 caps); mandatory-field errors with their exact presence conditions; "
+              "the scalar pair the Global reader accepts is the writer's; the 30 paired PSET value codecs are inverse pairs of one kind; who-may-write rule for the "
               "counts with paired vector operations; tap-tree leaves kept/written/read in DFS order (re-encoding fixpoint); ELIP-100/102 "
               "getter/setter key agreement; ProprietaryKey and Schnorr-signature codecs; the tap-tree reader advances by exactly the byte count "
               "the script decoder reports (any length-prefix size) and the key-origin reader continues where the leaf-hash vector ended; the "
@@ -167,7 +170,7 @@ CLAIMS = {
               "(ControlBlock::verify_taproot_commitment) hash pairs smaller-first under the same tag, start from the same leaf hash and end in "
               "tweak_add_check with the stored parity and H_tweak(internal key || root); combine appends the partner hash to every leaf path of "
               "both children; control-block encoder order equals decoder offsets, size() = 33 + 32m, accepted lengths are exactly 33 + 32m "
-              "with m <= 128 (decision table), leaf versions table over all 256 bytes; builder guards as exact decision tables over "
+              "with m <= 128 (decision table), leaf versions table over all 256 bytes, default leaf version = 0xc4; builder guards as exact decision tables over "
               "(depth, pending length) incl. over-complete/incomplete/empty refusal; Huffman: min-heap on Reverse<u64>, two pops per merge, "
               "saturating weight sum; key tweak composition for public keys and key pairs. NOT decided: that a wrong script/version/path/parity/"
               "key fails to verify (collision resistance and curve arithmetic), and optimality of Huffman depths beyond the algorithm's shape."),
